@@ -174,9 +174,15 @@ def endpoints(group, M, t0, d):
     unit, half = {'hours': (td(hours=1), td(minutes=30)), 'tdh': (td(hours=1), td(minutes=30)),
                   'minutes': (td(minutes=1), td(seconds=30)), 'seconds': (td(seconds=1), td(microseconds=500000))}[group]
     res = []
+    us3 = td(microseconds=3)
     for m in range(M + 1):
         res.append(('%d%s' % (m, group[0]), t0 + (unit * m) * d))
         res.append(('%d.5%s' % (m, group[0]), t0 + (unit * m + half) * d))
+        if group == 'hours' and m:
+            # an end point whose microsecond part differs from t0's: just short of / just past a point of the grid
+            res.append(('%d%s-3us' % (m, group[0]), t0 + (unit * m) * d - us3))
+            res.append(('%d%s+3us' % (m, group[0]), t0 + (unit * m) * d + us3))
+    res.sort(key=lambda e: abs(e[1] - t0))
     return res
 
 
@@ -333,6 +339,11 @@ def sweep(out, rec, state, drange, cal, t0, d, group, ends, bumps):
             calls = [('drange', lambda: drange(t0, t1, b.arg))]
             if cal is not None and b.sem != 'b' and ei % CAL_EVERY == 0:
                 calls.append(('Calendar.drange', lambda: cal.drange(t0, t1, b.arg)))
+            if group == 'days' and label.endswith('d') and ei % 3 == 1:
+                # the end point spelt RELATIVE to the explicit start: an int number of days, a timedelta or an 'nd' string
+                nd_ = (t1 - t0).days
+                rel = [nd_, datetime.timedelta(days=nd_), '%dd' % nd_][(ei // 3) % 3]
+                calls.append(('drange-relative-end', lambda rel=rel: drange(t0, rel, b.arg)))
             for via, f in calls:
                 if state['hangs'] >= 2:
                     out.cls('aborted-after-two-calls-without-return')
@@ -343,7 +354,7 @@ def sweep(out, rec, state, drange, cal, t0, d, group, ends, bumps):
                     outcomes[b.name] = (st, r)
                     s = sig
                 else:
-                    s = dict(sig, via='Calendar')
+                    s = dict(sig, via=via)
                 what = '%s(%s, %s, %s)' % (via, t0.isoformat(' '), t1.isoformat(' '), b.name)
                 if st == 'hang':
                     state['hangs'] += 1
